@@ -18,7 +18,7 @@ VERIF = str(Path(__file__).resolve().parent.parent)
 REPO = os.environ.get("SPOX_REPO", "/work/repo-c10")
 assert REPO != "/repo", "never mutate /repo: point SPOX_REPO at a scratch worktree"
 R = REPO + "/src/spox/"
-OBLIGATION_ONLY = {"S1_new_attr_class", "S2_new_array_function", "S3_new_storing_init"}  # expected: exit 1, no-failing-input-found
+OBLIGATION_ONLY = {"S1_new_attr_class", "S2_new_array_function", "S3_new_storing_init", "I7_lazy_tuple"}  # expected: exit 1, no-failing-input-found
 EQUIVALENT = {"B21b_no_flatten", "M12_ravel_K", "M15_future_init_asarray", "M16_lazy_onnx_cache", "D2_raw_correct_large"}
 MUTS = {
  # Appendix B row 20
@@ -57,6 +57,15 @@ MUTS = {
  # refactoring + bug: the harness must not crash (exit 2) and must still find the failing input
  "R1_rename_value_and_no_copy": [("SED", r"\b_value\b", "_val", ["_attributes.py"]), ("_attributes.py", "        super().__init__(value.copy(), name)", "        super().__init__(value, name)")],
  "R2_rename_from_array_and_latin1": [("SED", r"\bfrom_array\b", "to_tensor_proto", "ALL"), ("_utils.py", 'encoding="utf-8"', 'encoding="latin-1", errors="replace"')],
+ # round 6: one-shot iterables on list attributes / ways of handing a value over
+ "I1_iterable_prepass": ("_attributes.py", "    def __init__(self, value: Union[Iterable[S], _Ref[Tuple[S, ...]]], name: str):\n        super().__init__(", "    def __init__(self, value: Union[Iterable[S], _Ref[Tuple[S, ...]]], name: str):\n        if not isinstance(value, _Ref):\n            for v in value:\n                if isinstance(v, (list, tuple, dict)):\n                    raise TypeError(f\"Unable to instantiate `{type(self).__name__}` from nested items.\")\n        super().__init__("),
+ "I2_iterable_first_probe": ("_attributes.py", "    def __init__(self, value: Union[Iterable[S], _Ref[Tuple[S, ...]]], name: str):\n        super().__init__(", "    def __init__(self, value: Union[Iterable[S], _Ref[Tuple[S, ...]]], name: str):\n        if not isinstance(value, _Ref) and isinstance(next(iter(value), None), dict):\n            raise TypeError(\"dict items\")\n        super().__init__("),
+ "I3_ctor_prepass_kernel_shape": ("opset/ai/onnx/v17.py", "            kernel_shape=AttrInt64s(kernel_shape, name=\"kernel_shape\"),\n            pads=AttrInt64s.maybe(pads, name=\"pads\"),\n            storage_order", "            kernel_shape=AttrInt64s(kernel_shape if all(k > 0 for k in kernel_shape) else [], name=\"kernel_shape\"),\n            pads=AttrInt64s.maybe(pads, name=\"pads\"),\n            storage_order"),
+ "I4_maybe_prepass": ("_attributes.py", "        return cls(tuple(value), name) if value is not None else None", "        return cls(tuple(value), name) if value is not None and len(list(value)) >= 0 else None"),
+ "I5_ml_ctor_sorted_once": ("opset/ai/onnx/ml/v3.py", "            coefficients=AttrFloat32s(coefficients, name=\"coefficients\"),\n            intercepts=AttrFloat32s.maybe(intercepts, name=\"intercepts\"),\n            multi_class", "            coefficients=AttrFloat32s(coefficients if isinstance(coefficients, (list, tuple)) else list(coefficients)[1:], name=\"coefficients\"),\n            intercepts=AttrFloat32s.maybe(intercepts, name=\"intercepts\"),\n            multi_class"),
+ "I6_float_numpy_as_int": ("_attributes.py", "        if isinstance(self.value, int):\n            return make_attribute(self._name, float(self.value))", "        if isinstance(self.value, (int, np.number)):\n            return make_attribute(self._name, float(int(self.value)))"),
+ "I7_lazy_tuple": ("_attributes.py", "value=value if isinstance(value, _Ref) else tuple(value), name=name", "value=value if isinstance(value, (_Ref, tuple, range)) else tuple(value) if not hasattr(value, 'keys') and not hasattr(value, 'mapping') else value, name=name"),
+ "I8_set_sorted": ("_attributes.py", "value=value if isinstance(value, _Ref) else tuple(value), name=name", "value=value if isinstance(value, _Ref) else tuple(value) if isinstance(value, (list, tuple)) else tuple(sorted(value)), name=name"),
  # new capture sites without a row: generated_capture_complete / generated_classes_complete must break
  "S1_new_attr_class": ("APPEND", "_attributes.py", "\n\nclass AttrInt64Matrix(Attr[list]):\n    _attribute_proto_type = AttributeProto.INTS\n\n    def _to_onnx_deref(self) -> AttributeProto:\n        return make_attribute(self._name, [x for r in self.value for x in r], attr_type=AttributeProto.INTS)\n"),
  "S2_new_array_function": ("APPEND", "_graph.py", "\n\ndef initializers(arrs: List[np.ndarray]) -> Tuple[Var, ...]:\n    return tuple(initializer(a) for a in arrs)\n"),
